@@ -7,8 +7,8 @@ AGG_TRUST = ["sort.SliceStable is a correct stable sort (modelled by List.mergeS
 
 PROPS = {
     "C03": {
-        "lean": ["PP.Props.C03", "PP.Props.C09b", "PP.Tie.Scan", "PP.Tie.Reader"],
-        "what": "Total robustness: scan_safe (an invariant tying the 19 scanner states to the structure the Go code indexes into; from it no line, for any classifier outcome, reaches a nil dereference, an index panic or the explicit panic()), scan_first_flags, funcInit_no_slice (Func.Init's slice expressions stay in range for every symbol), scanL_no_panic / scanB_no_panic / scanSnapshot_no_panic (whole loop, every delivery), scanB_fuel + scanSnapshot_total (termination: one line per iteration), scan_calls_le_lines, aggregate_total (merge and less never index out of range, every level), parseArgs_wf / scanL_wf (every parsed argument is well-formed - the hypothesis of C05/C12); harness: corpus of past crashers + grammar-aware mutants + all line-kind sequences, each scanned repeatedly, aggregated at all levels, rendered as text and HTML and run through process() under recover with a time bound.",
+        "lean": ["PP.Props.C03", "PP.Props.CLI", "PP.Props.C09b", "PP.Tie.Scan", "PP.Tie.Reader"],
+        "what": "Total robustness: scan_safe (an invariant tying the 19 scanner states to the structure the Go code indexes into; from it no line, for any classifier outcome, reaches a nil dereference, an index panic or the explicit panic()), scan_first_flags, funcInit_no_slice (Func.Init's slice expressions stay in range for every symbol), scanL_no_panic / scanB_no_panic / scanSnapshot_no_panic (whole loop, every delivery), scanB_fuel + scanSnapshot_total (termination: one line per iteration), process_terminates (the command's repeated-scan loop ends for every input, never panics, fuel input length + 2), resume_terminates, scan_calls_le_lines, aggregate_total (merge and less never index out of range, every level), parseArgs_wf / scanL_wf (every parsed argument is well-formed - the hypothesis of C05/C12); harness: corpus of past crashers + grammar-aware mutants + all line-kind sequences, each scanned repeatedly, aggregated at all levels, rendered as text and HTML and run through process() under recover with a time bound.",
         "partial": "panic-freedom and running time of Go's regexp, html/template, fmt and go/parser are not proved (they are exercised by the mutation stream only); linear wall-clock time is supported by step counts (one scan per line, one fill per delivered chunk) and a doubling measurement, not by a theorem about the Go runtime.",
         "trusted": ["regexp, html/template, fmt, go/parser do not panic (exercised, not modelled)", "io.Reader contract"],
     },
@@ -29,8 +29,8 @@ PROPS = {
         "trusted": ["io.Reader contract: 0 <= n <= len(p)"],
     },
     "C02": {
-        "lean": ["PP.Props.C02", "PP.Props.C09b", "PP.Tie.Scan", "PP.Tie.Reader"],
-        "what": "Stream conservation: conservation / conservation_stream (processed lines in order ++ what is handed back = the input, for every scanner state, including panics), trace_agrees, forwarded_only_while_looking, no_forward_after_dump_started, trace_shape / trace_split (the only withheld line ever followed by forwarded text is a lone race separator = known finding K1), no_dump_identity (a stream without header or separator lines is reproduced identically), blank_consumed_states / no_two_blank (at most one blank separator line is withheld); K1_lone_separator_lost refutes the naive full statement on the known-finding witness; transported to every delivery by scanSnapshot_eq_L; harness: conservation oracle on every ScanSnapshot call, repeated scanning, and the command's process() end to end.",
+        "lean": ["PP.Props.C02", "PP.Props.CLI", "PP.Props.C09b", "PP.Tie.Scan", "PP.Tie.Reader"],
+        "what": "Stream conservation: conservation / conservation_stream (processed lines in order ++ what is handed back = the input, for every scanner state, including panics), trace_agrees, forwarded_only_while_looking, no_forward_after_dump_started, trace_shape / trace_split (the only withheld line ever followed by forwarded text is a lone race separator = known finding K1), no_dump_identity (a stream without header or separator lines is reproduced identically), blank_consumed_states / no_two_blank (at most one blank separator line is withheld); K1_lone_separator_lost refutes the naive full statement on the known-finding witness; transported to every delivery by scanSnapshot_eq_L; command level (a model of process(): repeated scanning, rendering through the console model, suffix handling, exit status): process_trace / process_conservation (when the command exits 0 its output is its input with each call's withheld block replaced by that call's rendering and every forwarded line kept verbatim and in order), process_identity_without_dump, process_exit_status, process_terminates; harness: conservation oracle on every ScanSnapshot call, repeated scanning, and process() end to end: byte-exact output and status against the model under piecewise deliveries and reader failures, and against the resume protocol over the public API.",
         "partial": "the literal sentence 'an input without any dump is reproduced identically' is false of the code for inputs containing a lone '==================' line (known finding K1, pinned by the repository's tests RaceHdr2Err..4Err); the theorems carve exactly that case out. The prefix writer is modelled as infallible.",
         "trusted": ["io.Writer never fails (writer errors are outside the property)", "io.MultiReader(suffix, rest) delivers suffix then rest (used by the resume protocol)"],
     },
@@ -52,8 +52,8 @@ PROPS = {
         "assumptions": ["goroutine ids distinct", "arguments well-formed where the key must stay similar to its members"],
     },
     "C15": {
-        "lean": ["PP.Props.C15"],
-        "what": "Pointer pseudo-names: nameTable_keys_nodup/same_value_same_name, nameTable_injective, nameTable_dense (#1..#k), recurring_named, primary_first, ascending_within_class, nonptr_unnamed, only_names_change; harness: the labelling laws evaluated on the implementation's snapshots (naming on/off), correspondence of nameArguments with the model on parsed and constructed snapshots.",
+        "lean": ["PP.Props.C15", "PP.Props.CLI"],
+        "what": "Pointer pseudo-names: nameTable_keys_nodup/same_value_same_name, nameTable_injective, nameTable_dense (#1..#k), recurring_named, primary_first, ascending_within_class, nonptr_unnamed, only_names_change, names_gate / scanner_never_names (with naming off no argument of any returned snapshot carries a name; naming on differs only by nameArguments), invalid_opts_rejected; harness: the labelling laws evaluated on the implementation's snapshots (naming on/off), correspondence of nameArguments with the model on parsed and constructed snapshots.",
         "trusted": ["sort.Sort on uint64 keys is a correct sort (modelled by insertion into a sorted duplicate-free list)"],
     },
 }
